@@ -1,7 +1,14 @@
-//! Panic-safe wrappers around Breadlog's library hooks: a panic inside the
-//! subject is evidence about the subject, not a harness error.
+//! Panic-safe and hang-safe wrappers around Breadlog's library hooks: a panic
+//! inside the subject is evidence about the subject, not a harness error, and
+//! an in-process call that does not return is reported as a hang suspect
+//! (inconclusive) instead of hanging the check.
 
 use breadlog::verif::Entry;
+use std::cell::RefCell;
+use std::sync::mpsc::{channel, Receiver, RecvTimeoutError, Sender};
+use std::time::Duration;
+
+pub const HOOK_TIMEOUT_S: u64 = 60;
 
 fn msg_of(e: Box<dyn std::any::Any + Send>) -> String
 {
@@ -19,9 +26,70 @@ fn msg_of(e: Box<dyn std::any::Any + Send>) -> String
     }
 }
 
+type Job = (String, bool, Vec<(String, String)>);
+
+struct Worker
+{
+    tx: Sender<Job>,
+    rx: Receiver<Result<Vec<Entry>, String>>,
+}
+
+fn spawn_worker() -> Worker
+{
+    let (tx, jrx) = channel::<Job>();
+    let (rtx, rx) = channel::<Result<Vec<Entry>, String>>();
+    std::thread::spawn(move || {
+        while let Ok((code, structured, macros)) = jrx.recv()
+        {
+            let r = std::panic::catch_unwind(|| breadlog::verif::find(&code, structured, &macros)).map_err(msg_of);
+            if rtx.send(r).is_err()
+            {
+                break;
+            }
+        }
+    });
+    Worker { tx, rx }
+}
+
+thread_local! {
+    static WORKER: RefCell<Option<Worker>> = RefCell::new(None);
+}
+
+pub fn is_timeout(m: &str) -> bool
+{
+    m.starts_with("TIMEOUT:")
+}
+
+/// Run the parser in a helper thread; give up (and abandon that thread) after HOOK_TIMEOUT_S.
 pub fn find(code: &str, structured: bool, macros: &[(String, String)]) -> Result<Vec<Entry>, String>
 {
-    std::panic::catch_unwind(|| breadlog::verif::find(code, structured, macros)).map_err(msg_of)
+    WORKER.with(|w| {
+        let mut w = w.borrow_mut();
+        if w.is_none()
+        {
+            *w = Some(spawn_worker());
+        }
+        let worker = w.as_ref().unwrap();
+        if worker.tx.send((code.to_string(), structured, macros.to_vec())).is_err()
+        {
+            *w = None;
+            return Err("TIMEOUT: parser worker is gone".to_string());
+        }
+        match worker.rx.recv_timeout(Duration::from_secs(HOOK_TIMEOUT_S))
+        {
+            Ok(r) => r,
+            Err(RecvTimeoutError::Timeout) =>
+            {
+                *w = None; // abandon the stuck thread
+                Err(format!("TIMEOUT: the in-process parser did not return within {} s on a {}-byte input", HOOK_TIMEOUT_S, code.len()))
+            },
+            Err(RecvTimeoutError::Disconnected) =>
+            {
+                *w = None;
+                Err("TIMEOUT: parser worker died".to_string())
+            },
+        }
+    })
 }
 
 pub fn extract_reference(s: &str) -> Result<Option<u32>, String>
